@@ -294,6 +294,103 @@ def rule_det1b(prog, rep, tier):
     rep.ob("DET-1b", "%d reads of a return/parameter dict, none observes its key order" % n, "holds", "", "")
 
 
+_FS_PREFIX = ("os.", "shutil.", "os.path.", "tempfile.")
+_FS_DEST = {"os.replace": 1, "os.rename": 1, "os.link": 1, "shutil.move": 1, "shutil.copy": 1, "shutil.copyfile": 1, "shutil.copy2": 1, "os.symlink": 1}
+
+
+def _ephemeral_name_only(prog, call, depth=0, seeds=None, fn=None):
+    """Does the volatile value only ever serve as the *name* of a temporary file?  Every use of the names derived from
+    it is (a) a path argument of an os / os.path / shutil function, not in destination position, (b) a None/truth test,
+    (c) a further derivation, (d) returned to callers or passed to a package function where the same holds.  A use as
+    written content, printed text, destination of a move, or anything else makes it observable -> False."""
+    if depth > 3:
+        return False
+    if seeds is None:
+        fn = enclosing_fn(call)
+        if fn is None:
+            return False
+        st = call
+        while not isinstance(st, ast.stmt):
+            st = st._parent
+        if not isinstance(st, ast.Assign):
+            return False
+        seeds = set()
+        for t in st.targets:
+            seeds |= names_in(t)
+        if not seeds:
+            return False
+    # the *name* flows through assignments only (a file object opened from it is not the name)
+    tainted = set(seeds)
+    grew = True
+    while grew:
+        grew = False
+        for a_ in ast.walk(fn.node):
+            if isinstance(a_, (ast.Assign, ast.AugAssign, ast.AnnAssign)) and a_.value is not None and names_in(a_.value) & tainted:
+                for t_ in (a_.targets if isinstance(a_, ast.Assign) else [a_.target]):
+                    new_ = names_in(t_) - tainted
+                    if new_:
+                        tainted |= new_
+                        grew = True
+    for u in ast.walk(fn.node):
+        if not (isinstance(u, ast.Name) and u.id in tainted and isinstance(u.ctx, ast.Load)):
+            continue
+        child, p = u, u._parent
+        verdict = None
+        while p is not None and verdict is None:
+            if isinstance(p, ast.Call) and child is p.func and isinstance(child, ast.Attribute):
+                verdict = True  # a method of the (file) object itself: it acts on the temporary file, the name goes nowhere
+            elif isinstance(p, ast.Call) and child is not p.func:
+                en = prog.ext_name(p.func, p) if isinstance(p.func, (ast.Name, ast.Attribute)) else None
+                if en is not None and en.startswith(_FS_PREFIX):
+                    pos = next((i for i, a in enumerate(p.args) if a is child), None)
+                    verdict = not (en in _FS_DEST and pos == _FS_DEST[en])
+                elif en in ("builtins.str", "builtins.format"):
+                    pass  # still the name
+                elif isinstance(p.func, ast.Attribute) and p.func.attr in ("format", "join") and en is None:
+                    pass  # string building: judged where the built string goes
+                else:
+                    tg = [t for t in prog.resolve_expr_fn(p.func, p) if isinstance(t, FunctionInfo)] if isinstance(p.func, (ast.Name, ast.Attribute)) else []
+                    if len(tg) == 1:
+                        pn = tg[0].params()
+                        pos = next((i for i, a in enumerate(p.args) if a is child), None)
+                        kw = next((k.arg for k in p.keywords if k.value is child), None)
+                        pname = pn[pos] if pos is not None and pos < len(pn) else kw
+                        verdict = pname is not None and _ephemeral_name_only(prog, None, depth + 1, {pname}, tg[0])
+                    else:
+                        verdict = False
+            elif isinstance(p, ast.Compare) and all(isinstance(c, ast.Constant) and c.value is None for c in p.comparators):
+                verdict = True
+            elif isinstance(p, (ast.If, ast.While, ast.IfExp, ast.Assert)) and child is p.test:
+                verdict = True
+            elif isinstance(p, (ast.Assign, ast.AnnAssign, ast.AugAssign)):
+                verdict = True  # a derivation: the target is tainted and judged at its own uses
+            elif isinstance(p, ast.Return):
+                ok = True
+                for caller, c in prog.callers_of(fn):
+                    if caller is None:
+                        ok = False
+                        continue
+                    st = c
+                    while not isinstance(st, ast.stmt):
+                        st = st._parent
+                    if isinstance(st, ast.Assign):
+                        s2 = set()
+                        for t in st.targets:
+                            s2 |= names_in(t)
+                        ok = ok and bool(s2) and _ephemeral_name_only(prog, None, depth + 1, s2, caller)
+                    elif isinstance(st, ast.Expr):
+                        pass  # result dropped
+                    else:
+                        ok = False
+                verdict = ok
+            elif isinstance(p, ast.stmt):
+                verdict = isinstance(p, (ast.Delete,))
+            child, p = p, getattr(p, "_parent", None)
+        if not verdict:
+            return False
+    return True
+
+
 def rule_det2(prog, rep, tier, allowed_env=(("pure_utils", "line_length"),)):
     """DET-2: no volatile source (addresses, hashes, clocks, random numbers, pids, unsorted directory listings,
     environment) on any path of the package, other than the documented line-length configuration read at import."""
@@ -319,6 +416,11 @@ def rule_det2(prog, rep, tier, allowed_env=(("pure_utils", "line_length"),)):
                 n += 1
                 continue
             vol = True
+        if vol and _ephemeral_name_only(prog, call):
+            n += 1
+            rep.ob("DET-2", "%s: %s" % (where, src(call, 60)), "accepted", loc(prog, call),
+                   "the value only ever names a temporary file (every use is a path argument of an os/shutil call, never a destination, content or result)")
+            continue
         if vol:
             n += 1
             rep.violation(Finding("DET-2", where, "volatile:%s" % en, "volatile source %s: %s" % (en, src(call, 70)), loc(prog, call)))
